@@ -2,6 +2,7 @@ package main
 
 import (
 	"context"
+	"runtime"
 	"time"
 
 	"gopkg.in/typ.v4/chans"
@@ -61,6 +62,28 @@ func (c19) step(t []string) string {
 			}
 		}
 		return btoa(ok) + " " + fmtInts(got) + " " + fmtInts(drain(ch))
+	case "recvclose":
+		// recvclose <cap> <tmo_ms> <rounds> <procs>: RecvTimeout on an EMPTY open channel that another goroutine closes at about the moment
+		// the timer fires (both orders occur over the rounds). Whatever wins, nothing was ever sent: every round must give (0, false).
+		// result: the number of rounds that returned something else, and the first such result
+		need(t, 5)
+		capacity, tmo, rounds, procs := atoi(t[1]), atoi(t[2]), atoi(t[3]), atoi(t[4])
+		old := runtime.GOMAXPROCS(procs)
+		defer runtime.GOMAXPROCS(old)
+		bad, first := 0, "-"
+		for i := 0; i < rounds; i++ {
+			ch := make(chan int, capacity)
+			d := time.Duration(tmo)*time.Millisecond + time.Duration(i%7-3)*20*time.Microsecond
+			go func() { time.Sleep(d); close(ch) }()
+			v, ok := chans.RecvTimeout(ch, ms(tmo))
+			if v != 0 || ok {
+				bad++
+				if first == "-" {
+					first = itoa(v) + ":" + btoa(ok)
+				}
+			}
+		}
+		return itoa(bad) + " " + first
 	case "recvtimeout", "recvcontext":
 		need(t, 6)
 		capacity, fill, closed, arg, peer := atoi(t[1]), atoi(t[2]), atoi(t[3]) != 0, atoi(t[4]), atoi(t[5])
